@@ -87,6 +87,20 @@ class RuntimeContract:
             for t in c.node.args:
                 self.modifies.add(ast.unparse(t))
 
+    def _callable(self) -> Any:
+        from .registry import AstFunc
+
+        if isinstance(self.func, AstFunc):
+            # compile the action from its AST (decorators dropped) in its module's namespace
+            node = copy.deepcopy(self.func.node)
+            node.decorator_list = []
+            m = ast.Module(body=[node], type_ignores=[])
+            ast.fix_missing_locations(m)
+            ns: dict = {}
+            exec(compile(m, self.func.path, "exec"), self.func.module.__dict__, ns)  # pylint: disable=exec-used
+            return ns[node.name]
+        return self.func
+
     def bind(self, kwargs: dict) -> dict:
         sig = inspect.signature(self.func)
         ba = sig.bind_partial(**kwargs)
@@ -123,10 +137,11 @@ class RuntimeContract:
         exc: Optional[BaseException] = None
         result = None
         try:
+            fn = self._callable()
             if timeout_s is not None:
-                result = _call_with_timeout(self.func, kwargs, timeout_s)
+                result = _call_with_timeout(fn, kwargs, timeout_s)
             else:
-                result = self.func(**kwargs)
+                result = fn(**kwargs)
         except _Timeout:
             rep["violations"].append(repr(Violation("termination", f"no result within {timeout_s}s")))
             rep["outcome"] = "timeout"
